@@ -86,6 +86,8 @@ def entries(ctx):
 
 
 def check(ctx):
+    from ..lib import discarded_results
+    ctx.sub(discarded_results, 'C15.S3', ('qstrader/broker/',), 'refusals and updates act on the objects the code actually changed')
     es = entries(ctx)
     ctx.floor('C15.S1', 'public entry points of SimulatedBroker and Portfolio', len(es), 20)
     total_raise = 0
